@@ -14,7 +14,7 @@ BUILTINS = {'len', 'int', 'str', 'bool', 'min', 'max', 'sum', 'abs', 'list', 'tu
 SPEC_BUILTINS = {'forall', 'exists', 'implies', 'iff', 'old', 'ite', 'seq_get', 'subset', 'setof', 'distinct', 'is_prefix',
                  'is_none', 'some', 'emptyset', 'set_add', 'set_remove', 'seq_take', 'seq_drop', 'index_of', 'card',
                  'str_len', 'str_at', 'str_contains', 'str_indexof', 'str_prefixof', 'str_suffixof', 'str_sub',
-                 'str_replace_first', 'domain', 'map_get', 'unchanged', 'map_same_except', 'heap_same', 'heap_same_except', 'map_same', 'okey', 'opos', 'oval', 'osame', 'oprefix', 'fun_set', 'in_re', 'int_to_str', 'str_to_int', 'str_lt', 'str_le'}
+                 'str_replace_first', 'domain', 'map_get', 'unchanged', 'map_same_except', 'heap_same', 'heap_same_except', 'map_same', 'okey', 'opos', 'oval', 'osame', 'oprefix', 'fun_set', 'has_flag', 'in_re', 'int_to_str', 'str_to_int', 'str_lt', 'str_le'}
 
 def _len_term(ex, v):
     ty = v.ty
@@ -397,7 +397,9 @@ def _seq_method(ex, bm, recv, name, args, kwargs):
         x = coerce(args[0], ety)
         ex.assign(bm.recv_node, V(recv.ty, (ln + 1, z3.Store(arr, ln, pack(x))))); return NONE
     if name == 'extend':
-        ex.assign(bm.recv_node, ex.seq_concat(recv, args[0] if isinstance(args[0], V) else ex.materialize(args[0]))); return NONE
+        other = args[0] if isinstance(args[0], V) else ex.materialize(args[0])
+        if isinstance(other.ty, TOpt): other = ex.co(other, other.ty.inner)      # extending with None raises TypeError
+        ex.assign(bm.recv_node, ex.seq_concat(recv, other)); return NONE
     if name == 'pop':
         if args: raise Unsupported('list.pop(i)')
         if ex.branch(ln == 0, exceptional=True): ex.raise_exc('IndexError')
@@ -600,6 +602,7 @@ def call_spec(ex, name, args, kwargs, node):
         m, k = a; return unpack(z3.Select(m.t[1], pack(coerce(k, m.ty.k))), m.ty.v)
     if name == 'seq_get':
         return seq_get(a[0], coerce(a[1], TInt).t)
+    if name == 'has_flag': return vbool((a[0].t & a[1].t) == a[1].t)
     if name == 'fun_set':
         f, k, v = a
         return V(f.ty, z3.Store(f.t, pack(ex.co(k, f.ty.k)), pack(ex.co(v, f.ty.v))))
